@@ -127,9 +127,9 @@ def run_shard(prop, tier, seed, shard, nshards, out, clause_filter, scale):
 
 
 def run_parent(prop, tier, seed, nshards, clause_filter, scale):
-    from vf import harness
+    from vf import harness, build
     t0 = time.time()
-    tmpd = os.path.join(VERIF, ".build", "tmp", "%s-%s-%d" % (prop, tier, os.getpid()))
+    tmpd = os.path.join(build.BUILD, "tmp", "%s-%s-%d" % (prop, tier, os.getpid()))
     os.makedirs(tmpd, exist_ok=True)
     # cheap import in the parent to get metadata + witness replays
     try:
@@ -245,8 +245,8 @@ def run_parent(prop, tier, seed, nshards, clause_filter, scale):
     }
     if harness_errors:
         ev["coverage"]["harness_errors"] = harness_errors
-    os.makedirs(os.path.join(VERIF, "evidence"), exist_ok=True)
-    with open(os.path.join(VERIF, "evidence", "%s.json" % prop), "w") as f:
+    os.makedirs(os.path.join(harness.OUT, "evidence"), exist_ok=True)
+    with open(os.path.join(harness.OUT, "evidence", "%s.json" % prop), "w") as f:
         json.dump(ev, f, indent=1, default=harness.jdefault)
 
     for line in known_lines:
@@ -264,7 +264,7 @@ def run_parent(prop, tier, seed, nshards, clause_filter, scale):
             if f["replay"] in seen:
                 continue
             seen.add(f["replay"])
-            print("VIOLATION property=%s replay=%s" % (prop, os.path.join(VERIF, f["replay"])))
+            print("VIOLATION property=%s replay=%s" % (prop, f["replay"]))
             print("  clause=%s signature=%s %s" % (f["clause"], f["signature"], f["message"][:400]))
         shutil.rmtree(tmpd, ignore_errors=True)
         return 1
